@@ -195,6 +195,25 @@ pub fn judge(inst: &Instance, hist: &[Act], r: &RunResult) -> Vec<(String, Strin
                     }
                 }
             }
+            if user.iter().any(|f| f[..] == pg[..]) {
+                // the application's own packet is byte for byte a keep-alive reply: frames cannot be told apart, so
+                // they are counted - whole frames of that shape only (plus a proper prefix of one at the end), at
+                // least one per keep-alive handed over and per write that returned, at most one per keep-alive
+                // received and per write started
+                let whole = r.written.len() / pg.len();
+                let tail = &r.written[whole * pg.len()..];
+                let shape_ok = r.written.chunks(pg.len()).take(whole).all(|c| c == &pg[..]) && pg[..tail.len()] == *tail;
+                let handed = ka.iter().filter(|i| **i < reads.len()).count();
+                let started = r.call_log.iter().filter(|(is_read, _)| !*is_read).count();
+                if !shape_ok {
+                    out.push(("torn-or-foreign-frame-on-the-wire".into(), format!("outbound bytes {} are not a run of keep-alive-shaped frames", crate::report::hex(&r.written))));
+                } else if whole < handed + writes_ok {
+                    out.push(("write-returned-before-frame-complete".into(), format!("{handed} keep-alive(s) handed over and {writes_ok} write(s) of a reply-shaped packet returned, but only {whole} such frame(s) on the wire")));
+                } else if whole + (!tail.is_empty()) as usize > ka.len() + started {
+                    out.push(("unsolicited-or-duplicate-reply".into(), format!("{} keep-alive(s) received and {started} write(s) started, {whole} reply-shaped frame(s) (+ partial: {}) on the wire", ka.len(), !tail.is_empty())));
+                }
+                return out;
+            }
             let mut o = 0usize;
             let mut u = 0usize;
             let mut pongs = 0usize;
